@@ -240,7 +240,9 @@ func notifyUnsatisfied(fn *ssa.Function, prune func(*ssa.Function) bool) (all []
 				if len(parts) == 3 {
 					x, op, y := unparen(parts[0]), parts[1], unparen(parts[2])
 					isLen := func(s string) bool { return strings.HasPrefix(s, "len(") && strings.HasSuffix(s, ".a)") }
-					okG = (isLen(x) && y == unparen(p.idx) && op == ">") || (x == unparen(p.idx) && isLen(y) && op == "<")
+					okG = (isLen(x) && y == unparen(p.idx) && op == ">") || (x == unparen(p.idx) && isLen(y) && op == "<") ||
+						// a length is never negative: len(a) != 0 says the same as len(a) > 0
+						(isLen(x) && op == "!=" && strings.HasPrefix(y, "0:") && strings.HasPrefix(unparen(p.idx), "0:"))
 				}
 				if !okG {
 					extra = cond
@@ -330,7 +332,18 @@ func ruleHeapNotify(c *Ctx, r *R) {
 		if !ok {
 			continue
 		}
-		if cal := staticCallee(&call.Call); cal != nil && fname(cal) == "notifyIndexChanged" && rangeOverP(call.Call.Args[1], lenOfInitial(d.calls)) {
+		isNotify := false
+		if cal := staticCallee(&call.Call); cal != nil && fname(cal) == "notifyIndexChanged" {
+			isNotify = true
+		} else if !call.Call.IsInvoke() && len(call.Call.Args) == 2 {
+			// the callback called directly: h.indexChanged(item, i)
+			if ld, ok := call.Call.Value.(*ssa.UnOp); ok && ld.Op == token.MUL {
+				if fa, ok := ld.X.(*ssa.FieldAddr); ok && fieldName(fa.X.Type(), fa.Field) == "indexChanged" {
+					isNotify = true
+				}
+			}
+		}
+		if isNotify && len(call.Call.Args) >= 2 && rangeOverP(call.Call.Args[1], lenOfInitial(d.calls)) {
 			// after every percolateDown: no percolateDown (deep) is reachable from this notification's place in New
 			later := false
 			for _, d2 := range deepNew {
@@ -387,7 +400,9 @@ func ruleHeapRestore(c *Ctx, r *R) {
 							if len(parts) == 3 {
 								x, op, y := unparen(parts[0]), parts[1], unparen(parts[2])
 								isLen := func(s string) bool { return strings.HasPrefix(s, "len(") && strings.HasSuffix(s, ".a)") }
-								okG = (isLen(x) && y == unparen(p.idx) && op == ">") || (x == unparen(p.idx) && isLen(y) && op == "<")
+								okG = (isLen(x) && y == unparen(p.idx) && op == ">") || (x == unparen(p.idx) && isLen(y) && op == "<") ||
+									// a length is never negative: len(a) != 0 says the same as len(a) > 0
+									(isLen(x) && op == "!=" && strings.HasPrefix(y, "0:") && strings.HasPrefix(unparen(p.idx), "0:"))
 							}
 							if !okG {
 								okConds = false
@@ -439,9 +454,33 @@ func ruleHeapRestore(c *Ctx, r *R) {
 					for _, e := range phi.Edges {
 						// len(initial)/2 - 1, with the slice possibly seen as h.a inside a helper method
 						se := symOf(e, provEnv{chain: d.calls})
-						if se.op == "-" && len(se.args) == 2 && se.args[1].isConst(1) && se.args[0].op == "/" && len(se.args[0].args) == 2 && se.args[0].args[1].isConst(2) && se.args[0].args[0].op == "len" {
-							if lf := se.args[0].args[0].args[0]; lf.op == "leaf" && initial != nil && lf.s == "param:"+pname(initial.(*ssa.Parameter)) {
+						isLen := func(e *sx) bool {
+							if e == nil || e.op != "len" || len(e.args) != 1 {
+								return false
+							}
+							lf := e.args[0]
+							return lf.op == "leaf" && initial != nil && lf.s == "param:"+pname(initial.(*ssa.Parameter))
+						}
+						bin := func(e *sx, op string) (*sx, *sx, bool) {
+							if e != nil && e.op == op && len(e.args) == 2 {
+								return e.args[0], e.args[1], true
+							}
+							return nil, nil, false
+						}
+						// the last position that has a child, written as len/2 - 1, as parent(len-1) = ((len-1)-1)/2, or (len-2)/2
+						if a, b1, ok := bin(se, "-"); ok && b1.isConst(1) {
+							if l, two, ok := bin(a, "/"); ok && two.isConst(2) && isLen(l) {
 								start = true
+							}
+						}
+						if a, two, ok := bin(se, "/"); ok && two.isConst(2) {
+							if l, k2, ok := bin(a, "-"); ok && k2.isConst(2) && isLen(l) {
+								start = true
+							}
+							if a2, k1, ok := bin(a, "-"); ok && k1.isConst(1) {
+								if l, k1b, ok := bin(a2, "-"); ok && k1b.isConst(1) && isLen(l) {
+									start = true
+								}
 							}
 						}
 						if sub, ok := e.(*ssa.BinOp); ok && sub.Op == token.SUB && sub.X == ssa.Value(phi) && isConstInt(sub.Y, 1) {
@@ -1214,7 +1253,7 @@ func ruleCopyMovesItems(rels ...string) func(c *Ctx, r *R) {
 
 var _ = late(func() {
 	properties["C05"].Rules = append(properties["C05"].Rules, &Rule{ID: "C05.copy-moves-items", Floor: 2, Clause: "every copy() in internal/heap, container/xheap and xslices (Grow/Shrink/Insert, which the heap's Grow and Shrink are built on) writes into a destination that has a length (copy moves min(len(dst), len(src)) items; a make([]T, 0, n) destination receives none)", Run: ruleCopyMovesItems("internal/heap", "container/xheap", "xslices")})
-	properties["C04"].Rules = append(properties["C04"].Rules, &Rule{ID: "C04.copy-moves-items", Floor: 2, Clause: "every copy() in container/deque (resize) writes into a destination that has a length: a make([]T, 0, n) destination receives no items", Run: ruleCopyMovesItems("container/deque")})
+	properties["C04"].Rules = append(properties["C04"].Rules, &Rule{ID: "C04.copy-moves-items", Floor: 0, Clause: "every copy() in container/deque (resize) writes into a destination that has a length: a make([]T, 0, n) destination receives no items", Run: ruleCopyMovesItems("container/deque")})
 	properties["C19"].Rules = append(properties["C19"].Rules, &Rule{ID: "C19.copy-moves-items", Floor: 2, Clause: "every copy() in xslices writes into a destination that has a length (copy moves min(len(dst), len(src)) items)", Run: ruleCopyMovesItems("xslices")})
 })
 
